@@ -78,6 +78,10 @@ func specDescWF(d PropertyDescriptor) bool {
 	if (d.Getter != nil || d.Setter != nil) && (d.Value != nil || d.Writable != FLAG_NOT_SET) {
 		return false
 	}
+	switch d.Value.(type) {
+	case *valueProperty, *mappedProperty, valueUnresolved, memberUnresolved:
+		return false // a descriptor's [[Value]] is a language value, never an internal record
+	}
 	return specFuncOrUndef(d.Getter) && specFuncOrUndef(d.Setter) &&
 		(d.Writable == FLAG_NOT_SET || d.Writable == FLAG_TRUE || d.Writable == FLAG_FALSE) &&
 		(d.Enumerable == FLAG_NOT_SET || d.Enumerable == FLAG_TRUE || d.Enumerable == FLAG_FALSE) &&
@@ -97,15 +101,16 @@ func specFuncOrUndef(v Value) bool {
 	return false
 }
 
-// specPropWF: a data property always has a value; an accessor never has one.
+// specPropWF: a data property always has a value and no accessor functions; an accessor property
+// has no value and is not writable.
 func specPropWF(c specProp) bool {
 	if !c.present {
 		return true
 	}
 	if c.accessor {
-		return c.value == nil
+		return c.value == nil && !c.writable
 	}
-	return c.value != nil
+	return c.value != nil && c.getter == nil && c.setter == nil
 }
 
 // specValidate: does ValidateAndApplyPropertyDescriptor accept (extensible, Desc, current)?
@@ -144,4 +149,213 @@ func specValidate(extensible bool, d PropertyDescriptor, c specProp) bool {
 		}
 	}
 	return true
+}
+
+func specIsUndefined(v Value) bool {
+	_, ok := v.(valueUndefined)
+	return ok
+}
+
+// ---- Proxy invariant checks (ECMA-262 10.5)
+
+// specProxyHasFalseOK: [[HasProperty]] 10.5.7 step 9 — the trap reported "absent".
+func specProxyHasFalseOK(targetProp Value, ext bool) bool {
+	c := specExistingOf(targetProp)
+	if c.present {
+		if !c.configurable {
+			return false
+		}
+		if !ext {
+			return false
+		}
+	}
+	return true
+}
+
+// specProxyGetOK: [[Get]] 10.5.8 steps 9-10.
+func specProxyGetOK(targetProp, trapResult Value) bool {
+	c := specExistingOf(targetProp)
+	if c.present && !c.configurable {
+		if !c.accessor && !c.writable && !specSameValue(trapResult, c.value) {
+			return false
+		}
+		if c.accessor && c.getter == nil && !specIsUndefined(trapResult) {
+			return false
+		}
+	}
+	return true
+}
+
+// specProxySetOK: [[Set]] 10.5.9 steps 10-11 — the trap reported success.
+func specProxySetOK(targetProp, value Value) bool {
+	c := specExistingOf(targetProp)
+	if c.present && !c.configurable {
+		if !c.accessor && !c.writable && !specSameValue(c.value, value) {
+			return false
+		}
+		if c.accessor && c.setter == nil {
+			return false
+		}
+	}
+	return true
+}
+
+// specProxyDeleteOK: [[Delete]] 10.5.10 steps 9-13 — the trap reported success.
+func specProxyDeleteOK(targetProp Value, ext bool) bool {
+	c := specExistingOf(targetProp)
+	if !c.present {
+		return true
+	}
+	if !c.configurable {
+		return false
+	}
+	return ext
+}
+
+// specProxyDefineOK: [[DefineOwnProperty]] 10.5.6 steps 14-17 — the trap reported success.
+func specProxyDefineOK(targetProp Value, ext bool, d PropertyDescriptor) bool {
+	c := specExistingOf(targetProp)
+	settingConfigFalse := d.Configurable == FLAG_FALSE
+	if !c.present {
+		if !ext {
+			return false
+		}
+		return !settingConfigFalse
+	}
+	if !specValidate(ext, d, c) {
+		return false
+	}
+	if settingConfigFalse && c.configurable {
+		return false
+	}
+	if !c.accessor && !c.configurable && c.writable && d.Writable == FLAG_FALSE {
+		return false
+	}
+	return true
+}
+
+// specExistingWF: the stored form of a property is well formed.
+func specExistingWF(v Value) bool { return specPropWF(specExistingOf(v)) }
+
+func specIsNull(v Value) bool {
+	_, ok := v.(valueNull)
+	return ok
+}
+
+// specComplete: CompletePropertyDescriptor (6.2.6.6).
+func specComplete(d PropertyDescriptor) PropertyDescriptor {
+	if d.Getter == nil && d.Setter == nil {
+		if d.Value == nil {
+			d.Value = _undefined
+		}
+		if d.Writable == FLAG_NOT_SET {
+			d.Writable = FLAG_FALSE
+		}
+	} else {
+		if d.Getter == nil {
+			d.Getter = _undefined
+		}
+		if d.Setter == nil {
+			d.Setter = _undefined
+		}
+	}
+	if d.Enumerable == FLAG_NOT_SET {
+		d.Enumerable = FLAG_FALSE
+	}
+	if d.Configurable == FLAG_NOT_SET {
+		d.Configurable = FLAG_FALSE
+	}
+	return d
+}
+
+// specProxyGOPDOK: [[GetOwnProperty]] 10.5.5 steps 9-17. rd is ToPropertyDescriptor(trapResult)
+// when the trap returned an object; extU / extO is the target's extensibility as asked on the
+// "undefined" and on the "object" path.
+func specProxyGOPDOK(targetProp, trapResult Value, extU, extO bool, rd PropertyDescriptor) bool {
+	c := specExistingOf(targetProp)
+	if trapResult == nil || specIsUndefined(trapResult) {
+		if !c.present {
+			return true
+		}
+		if !c.configurable {
+			return false
+		}
+		return extU
+	}
+	if _, ok := trapResult.(*Object); !ok {
+		return false
+	}
+	d := specComplete(rd)
+	if !specValidate(extO, d, c) {
+		return false
+	}
+	if d.Configurable == FLAG_FALSE {
+		if !c.present || c.configurable {
+			return false
+		}
+		if d.Writable == FLAG_FALSE && c.writable {
+			return false
+		}
+	}
+	return true
+}
+
+// specFuncOf: the function object a descriptor's [[Get]]/[[Set]] field denotes (nil for undefined).
+func specFuncOf(v Value) *Object {
+	o, _ := v.(*Object)
+	return o
+}
+
+// specApply: the property record that results from ValidateAndApplyPropertyDescriptor
+// (10.1.6.3 step 6 onwards) when it accepts.
+func specApply(d PropertyDescriptor, c specProp) specProp {
+	isAcc := d.Getter != nil || d.Setter != nil
+	isData := d.Value != nil || d.Writable != FLAG_NOT_SET
+	var (
+		accessor, writable, enumerable, configurable bool
+		value                                        Value
+		getter, setter                               *Object
+	)
+	if !c.present {
+		enumerable = d.Enumerable == FLAG_TRUE
+		configurable = d.Configurable == FLAG_TRUE
+		if isAcc {
+			accessor = true
+			getter, setter = specFuncOf(d.Getter), specFuncOf(d.Setter)
+		} else {
+			value = d.Value
+			if value == nil {
+				value = _undefined
+			}
+			writable = d.Writable == FLAG_TRUE
+		}
+	} else {
+		accessor, writable, enumerable, configurable = c.accessor, c.writable, c.enumerable, c.configurable
+		value, getter, setter = c.value, c.getter, c.setter
+		if isAcc && !c.accessor {
+			accessor, value, writable, getter, setter = true, nil, false, nil, nil
+		} else if isData && c.accessor {
+			accessor, value, writable, getter, setter = false, _undefined, false, nil, nil
+		}
+		if d.Value != nil {
+			value = d.Value
+		}
+		if d.Writable != FLAG_NOT_SET {
+			writable = d.Writable == FLAG_TRUE
+		}
+		if d.Getter != nil {
+			getter = specFuncOf(d.Getter)
+		}
+		if d.Setter != nil {
+			setter = specFuncOf(d.Setter)
+		}
+		if d.Enumerable != FLAG_NOT_SET {
+			enumerable = d.Enumerable == FLAG_TRUE
+		}
+		if d.Configurable != FLAG_NOT_SET {
+			configurable = d.Configurable == FLAG_TRUE
+		}
+	}
+	return specProp{present: true, accessor: accessor, writable: writable, enumerable: enumerable,
+		configurable: configurable, value: value, getter: getter, setter: setter}
 }
